@@ -145,7 +145,8 @@ def canonIsoClause (a c : Sym) : Bool := c.wellFormed && isomorphic a c
 /-- "two connected D-symbols have equal canonical forms iff they are isomorphic" -/
 def separationClause (a b ca cb : Sym) : Bool := (ca == cb) == isomorphic a b
 
-/-! ### the per-seed codes (conclusions of the open proof obligations, evaluated on every case) -/
+/-! ### the per-seed codes (conclusions of `seeds_good`, `code_determines_symbol`,
+`minimalTraversalCode_least` of Props/C03.lean, evaluated on the implementation's outputs) -/
 
 /-- lexicographic `≤` on integer lists -/
 def lexLe : List Int → List Int → Bool
